@@ -410,7 +410,7 @@ def tx_ob(name, tier, part, defs, to, bounds, wit, loops45):
     add(name, "h_transmit.c", "h_transmit", {"C02": tier, "C01": "thorough"}, defines=["-DPART=%d" % part] + defs,   # C01's quick tier stays short; the same queries run in C02's quick tier
         cbmc=["--unwind", "52", "--unwindset", "transmit.3:6,transmit.4:%d,transmit.5:%d,transmit.6:6,transmit.7:8,transmit.9:3" % (loops45, loops45)],
         backend="kissat", timeout=to, mem_gb=6, extra_src=["crctab.c"], shrink="encoder_bucket",
-        functions=["src/encode.c:transmit (PUTBIT/SEND/DUMP macros)"], witnesses=["inspected"] + wit,
+        functions=["src/encode.c:transmit (PUTBIT/SEND/DUMP macros)"], witnesses=["inspected", "size_multiple_of_4", "size_not_multiple_of_4"] + wit,
         bounds=bounds, assumptions=TX_ASM, outside=TX_OUT)
 tx_ob("transmit_map_sel", "quick", 1, ["-DBMASK=0x8101u"], 1800,
       "symbol map: buckets 0, 7 and 15 arbitrary (others empty); table count 2..6 and 1..3 selectors symbolic; CRC and primary index fields symbolic; table lengths concrete",
